@@ -1072,6 +1072,8 @@ func (g *FnGen) prelude() string {
 	fmt.Fprintf(&b, "(declare-datatypes ((Slice 0)) (((mk-slice (s-ref Int) (s-off %s) (s-len %s) (s-cap %s)))))\n", idx, idx, idx)
 	b.WriteString("(declare-sort Str 0)\n(declare-sort Iface 0)\n(declare-sort F64 0)\n")
 	fmt.Fprintf(&b, "(declare-fun slen (Str) %s)\n(declare-fun sat (Str %s) %s)\n", idx, idx, g.isort(8))
+	// the rune sequence of a string ([]rune(s), range over a string): uninterpreted (UTF-8 decoding is not modelled)
+	fmt.Fprintf(&b, "(declare-fun rune-len (Str) %s)\n(declare-fun rune-at (Str %s) %s)\n", idx, idx, g.isort(32))
 	// string slicing and concatenation as functions with content axioms
 	le, lt := g.cmp("<=", true), g.cmp("<", true)
 	z := g.ilit64(0)
